@@ -279,8 +279,10 @@ func (s *listSubj[T]) check(o *Oracle) {
 				o.Fail("C03", "contains", "after %s: Contains(%s)=%v, want %v", o.cur, s.d.Str(v), got, want)
 			}
 		}
-		if got := io.IndexOf(s.d.Probes[0]); got != -1 {
-			o.Fail("C03", "indexof", "after %s: IndexOf(absent)=%d", o.cur, got)
+		for _, v := range s.d.Probes {
+			if got, want := io.IndexOf(v), slices.Index(s.m, v); got != want {
+				o.Fail("C03", "indexof", "after %s: IndexOf(%s)=%d, want %d", o.cur, s.d.Str(v), got, want)
+			}
 		}
 		if !s.l.Contains() {
 			o.Fail("C03", "contains-empty", "after %s: Contains() with no arguments is false", o.cur)
@@ -467,3 +469,11 @@ func (s *listSubj[T]) DoHostile(op Op) {
 		hostileIdxEnum[T](listEnum[T](s.l), a[2], d)
 	}
 }
+
+func (s *listSubj[T]) EncodeModel() []byte {
+	if s.m == nil {
+		return []byte("[]")
+	}
+	return mustJSON(s.m)
+}
+func (s *listSubj[T]) AdoptModel(from Subject) { s.m = slices.Clone(from.(*listSubj[T]).m) }
